@@ -452,6 +452,16 @@ func checkSQLOwnership(c *Ctx, p *Prog, rule string) []sqlStmt {
 			}
 		case "CREATE":
 			c.Check(has(s.Tokens, "IF", "NOT", "EXISTS"), rule, construct, s.Pos, "idempotent DDL (IF NOT EXISTS)", "DDL without IF NOT EXISTS: opening an existing database fails or recreates objects")
+			// text keys compare byte-wise: a case-folding or trimming collation on a key column
+			// (also the target of ON CONFLICT) merges distinct subscription ids / type names
+			for i, t := range s.Tokens {
+				if t == "COLLATE" && i+1 < len(s.Tokens) && s.Tokens[i+1] != "BINARY" {
+					c.Violate(rule, construct+"/collation", s.Pos, "a column is declared COLLATE "+s.Tokens[i+1]+": ids that differ only in case (or trailing blanks) share one row, so subscriptions no longer progress independently", nil)
+				}
+			}
+			if tbl == "subscription_positions" && s.Tokens[1] == "TABLE" {
+				c.Check(has(s.Tokens, "SUBSCRIPTION_ID", "TEXT", "PRIMARY", "KEY"), rule, construct+"/id-is-the-key", s.Pos, "subscription_id TEXT PRIMARY KEY", "the saved-positions table is not keyed by subscription_id TEXT PRIMARY KEY: the upsert's conflict target does not identify one row per id")
+			}
 			if tbl == "events" && s.Tokens[1] == "TABLE" {
 				c.Check(has(s.Tokens, "POSITION", "INTEGER", "PRIMARY", "KEY", "AUTOINCREMENT"), rule, construct+"/autoincrement", s.Pos, "positions are AUTOINCREMENT primary keys (never reused)", "the events table's position is not INTEGER PRIMARY KEY AUTOINCREMENT: positions can be reused after the newest rows are gone")
 			}
@@ -1500,4 +1510,129 @@ func checkNoRetryTransport(c *Ctx, p *Prog, rule string) {
 	if bad == 0 {
 		c.Discharge(rule, "durablestream/no-retrying-transport", "", "no retry middleware in the client construction: a rejected append is reported, not re-sent")
 	}
+}
+
+// ---------------------------------------------------------------------------
+// Fresh decode targets in the stores' read loops (C09.R3, C10.R6, C11.R3, C14.R4, C19.R1).
+//
+// A record decoded inside a loop (json.Unmarshal, Decoder.Decode, Rows.Scan) must be
+// decoded into an object allocated in that iteration: json.Unmarshal merges into its
+// target (absent fields keep the previous record's values, RawMessage re-uses the previous
+// backing array), and a hoisted *StoredEvent makes every returned / yielded event the same
+// object. Scalar targets (an int64 position, a string) are exempt: they are copied.
+
+func checkStoreDecodeTargets(c *Ctx, p *Prog, pkg, rule string) {
+	n := 0
+	for _, f := range p.FuncsIn(pkg) {
+		li := loopsOf(f)
+		ord := 0
+		for _, b := range f.Blocks {
+			for _, in := range b.Instrs {
+				call, ok := in.(*ssa.Call)
+				if !ok {
+					continue
+				}
+				var targets []ssa.Value
+				switch cn := calleeName(call.Common()); {
+				case cn == "encoding/json.Unmarshal" && len(call.Common().Args) == 2:
+					targets = []ssa.Value{call.Common().Args[1]}
+				case strings.HasSuffix(cn, "json.Decoder).Decode") && len(call.Common().Args) == 2:
+					targets = []ssa.Value{call.Common().Args[1]}
+				case (strings.HasSuffix(cn, ").Scan") || strings.HasSuffix(cn, ".Scan")) && len(call.Common().Args) > 0:
+					// (*sql.Rows).Scan, (*sql.Row).Scan or the package's row-scanner interface
+					targets = variadicElems(call.Common().Args[len(call.Common().Args)-1])
+					if len(targets) == 0 {
+						continue
+					}
+				default:
+					continue
+				}
+				ord++
+				c.Stats["decode_sites"]++
+				h := li.headerOf[b]
+				if h == nil {
+					continue // not in a loop: one decode per call
+				}
+				n++
+				construct := fmt.Sprintf("%s/decode-in-loop#%d/fresh-target", FuncDisplay(f), ord)
+				bad := ""
+				for _, t := range targets {
+					root := decodeRoot(t)
+					if root == nil {
+						continue
+					}
+					if _, basic := root.Type().Underlying().(*types.Pointer).Elem().Underlying().(*types.Basic); basic {
+						continue
+					}
+					if !li.body[h][root.Block()] {
+						bad = describeValue(root)
+					}
+				}
+				c.Check(bad == "", rule, construct, p.Pos(in.Pos()), "every aggregate decode target is allocated inside the loop iteration", "records are decoded in a loop into "+bad+", which is allocated once outside the loop: each record is decoded on top of the previous one (stale fields, shared byte buffers) and all returned events alias one object")
+			}
+		}
+	}
+	c.Stats["decode_in_loop_sites"] += n
+}
+
+// variadicElems: the values stored into the array backing a variadic argument.
+func variadicElems(v ssa.Value) []ssa.Value {
+	sl, ok := v.(*ssa.Slice)
+	if !ok {
+		return nil
+	}
+	al, ok := sl.X.(*ssa.Alloc)
+	if !ok {
+		return nil
+	}
+	var out []ssa.Value
+	for _, ref := range *al.Referrers() {
+		if ia, ok := ref.(*ssa.IndexAddr); ok {
+			for _, r2 := range *ia.Referrers() {
+				if st, ok := r2.(*ssa.Store); ok && st.Addr == ia {
+					out = append(out, st.Val)
+				}
+			}
+		}
+	}
+	return out
+}
+
+// decodeRoot: the allocation a decode target points into (&x, &x.f, p.f with p := new(T)).
+func decodeRoot(v ssa.Value) *ssa.Alloc {
+	for i := 0; i < 8; i++ {
+		v = stripConv(v)
+		switch x := v.(type) {
+		case *ssa.Alloc:
+			return x
+		case *ssa.FieldAddr:
+			v = x.X
+		case *ssa.IndexAddr:
+			v = x.X
+		case *ssa.UnOp:
+			if x.Op != token.MUL {
+				return nil
+			}
+			al, ok := x.X.(*ssa.Alloc)
+			if !ok {
+				return nil
+			}
+			// a pointer variable: its single stored value
+			var stored ssa.Value
+			k := 0
+			for _, ref := range *al.Referrers() {
+				if st, ok := ref.(*ssa.Store); ok && st.Addr == al {
+					stored = st.Val
+					k++
+				}
+			}
+			if k != 1 {
+				return nil
+			}
+			v = stored
+		default:
+			return nil
+		}
+	}
+	return nil
 }
